@@ -405,6 +405,11 @@ func (a *vAgent) Start(id [stun.TransactionIDSize]byte, deadline time.Time) erro
 	return err
 }
 func (a *vAgent) Stop(id [stun.TransactionIDSize]byte) error { return a.a.Stop(id) }
+
+// StopWithError: the wrapper offers everything the wrapped Agent offers (a client may look for optional methods).
+func (a *vAgent) StopWithError(id [stun.TransactionIDSize]byte, err error) error {
+	return a.a.StopWithError(id, err)
+}
 func (a *vAgent) Collect(t time.Time) error {
 	err := a.a.Collect(t)
 	for id, d := range a.deadlines {
